@@ -8,6 +8,7 @@ import (
 	"os"
 	"sort"
 	"strings"
+	"sync"
 
 	"github.com/sdcio/yang-parser/data/datanode"
 	"github.com/sdcio/yang-parser/schema"
@@ -175,6 +176,57 @@ func judgeErrs(viol, mustv, errs []dvm.Viol) (string, *dvm.Viol) {
 	return "", nil
 }
 
+// judgeData compares what the real code did on one tree with the vector's expectations.
+func judgeData(sh dvm.Shape, v dataVec, o dataObs) []dataMism {
+	out := []dataMism{}
+	mism := func(kind string, want, got interface{}, vv *dvm.Viol) {
+		out = append(out, dataMism{sh.ID, kind, v.D, want, got, vv})
+	}
+	if o.Panic != "" {
+		mism("panic", "", o.Panic, nil)
+		return out
+	}
+	if k, x := judgeErrs(v.Viol, v.Must, o.Errs); k != "" {
+		mism(k, v.Viol, o.Errs, x)
+	} else if k, x := judgeErrs(v.Viol, v.Must, o.Errs2); k != "" {
+		// the same tree object judged again after its decorated views were walked
+		mism("verdict-changed", v.Viol, o.Errs2, x)
+	}
+	if dvm.KeyOf(o.After) != dvm.KeyOf(v.D) {
+		mism("explicit-altered", dvm.Canon(v.D), dvm.Canon(o.After), nil)
+	}
+	wd := dvm.KeyOf(v.Deco)
+	g1 := dvm.Canon(dvm.PruneNP(sh.Kids, o.Deco1))
+	g2 := dvm.Canon(dvm.PruneNP(sh.Kids, o.Deco2))
+	if dvm.KeyOf(g1) != wd {
+		mism("decorate", dvm.Canon(v.Deco), g1, nil)
+	} else if dvm.KeyOf(g2) != wd {
+		mism("twice", dvm.Canon(v.Deco), g2, nil)
+	}
+	return out
+}
+
+func loadDataShape(schemaFile, vecFile string) (dvm.Shape, schema.ModelSet, []dataVec) {
+	shs := readShapes(schemaFile)
+	if len(shs) != 1 {
+		die("%s: one schema expected", schemaFile)
+	}
+	sh := shs[0]
+	ms, err := dvm.Compile(sh)
+	if err != nil {
+		die("shape %d does not compile: %v\n%s", sh.ID, err, dvm.RenderYang(sh))
+	}
+	vs := []dataVec{}
+	eachLine(vecFile, func(b []byte) {
+		var v dataVec
+		if err := json.Unmarshal(b, &v); err != nil {
+			die("%s: %v", vecFile, err)
+		}
+		vs = append(vs, v)
+	})
+	return sh, ms, vs
+}
+
 func replayData(args []string) {
 	fs := flag.NewFlagSet("replay-data", flag.ExitOnError)
 	out := fs.String("out", "res.ndjson", "mismatches")
@@ -186,57 +238,84 @@ func replayData(args []string) {
 	w := create(*out)
 	n, bad, withViol, withDef := 0, 0, 0, 0
 	for i := 0; i < len(files); i += 2 {
-		shs := readShapes(files[i])
-		if len(shs) != 1 {
-			die("%s: one schema expected", files[i])
-		}
-		sh := shs[0]
-		ms, err := dvm.Compile(sh)
-		if err != nil {
-			die("shape %d does not compile: %v\n%s", sh.ID, err, dvm.RenderYang(sh))
-		}
-		eachLine(files[i+1], func(b []byte) {
-			var v dataVec
-			if err := json.Unmarshal(b, &v); err != nil {
-				die("%s: %v", files[i+1], err)
-			}
+		sh, ms, vs := loadDataShape(files[i], files[i+1])
+		for _, v := range vs {
 			n++
 			if len(v.Viol) > 0 {
 				withViol++
 			}
-			o := observe(ms, v.D)
-			mism := func(kind string, want, got interface{}, vv *dvm.Viol) {
-				bad++
-				w.put(dataMism{sh.ID, kind, v.D, want, got, vv})
-			}
-			if o.Panic != "" {
-				mism("panic", "", o.Panic, nil)
-				return
-			}
-			if k, x := judgeErrs(v.Viol, v.Must, o.Errs); k != "" {
-				mism(k, v.Viol, o.Errs, x)
-			} else if k, x := judgeErrs(v.Viol, v.Must, o.Errs2); k != "" {
-				// the same tree object judged again after its decorated views were walked
-				mism("verdict-changed", v.Viol, o.Errs2, x)
-			}
-			if dvm.KeyOf(o.After) != dvm.KeyOf(v.D) {
-				mism("explicit-altered", dvm.Canon(v.D), dvm.Canon(o.After), nil)
-			}
-			wd := dvm.KeyOf(v.Deco)
-			if wd != dvm.KeyOf(dvm.PruneNP(sh.Kids, v.D)) {
+			if dvm.KeyOf(v.Deco) != dvm.KeyOf(dvm.PruneNP(sh.Kids, v.D)) {
 				withDef++
 			}
-			g1 := dvm.Canon(dvm.PruneNP(sh.Kids, o.Deco1))
-			g2 := dvm.Canon(dvm.PruneNP(sh.Kids, o.Deco2))
-			if dvm.KeyOf(g1) != wd {
-				mism("decorate", dvm.Canon(v.Deco), g1, nil)
-			} else if dvm.KeyOf(g2) != wd {
-				mism("twice", dvm.Canon(v.Deco), g2, nil)
+			for _, m := range judgeData(sh, v, observe(ms, v.D)) {
+				bad++
+				w.put(m)
 			}
-		})
+		}
 	}
 	w.close()
 	fmt.Printf("{\"evaluations\":%d,\"mismatches\":%d,\"with_violations\":%d,\"with_defaults_added\":%d}\n", n, bad, withViol, withDef)
+}
+
+// concData: one compiled schema per shape is shared by G goroutines that validate / decorate
+// DISTINCT data trees at the same time (released together, several rounds); every outcome is
+// judged like in replay-data.  Meant to be built with the race detector.
+func concData(args []string) {
+	fs := flag.NewFlagSet("conc-data", flag.ExitOnError)
+	out := fs.String("out", "conc.ndjson", "mismatches")
+	max := fs.Int("max", 120, "trees per shape")
+	g := fs.Int("g", 16, "goroutines")
+	fs.Parse(args)
+	files := fs.Args()
+	w := create(*out)
+	r := rand.New(rand.NewSource(seed()))
+	n, bad := 0, 0
+	for i := 0; i+1 < len(files); i += 2 {
+		shs := readShapes(files[i])
+		sh := shs[0]
+		ms, err := dvm.Compile(sh)
+		if err != nil {
+			die("shape %d does not compile: %v", sh.ID, err)
+		}
+		lines := [][]byte{} // parse only the drawn vectors (the race build is slow at everything)
+		eachLine(files[i+1], func(b []byte) { lines = append(lines, append([]byte{}, b...)) })
+		r.Shuffle(len(lines), func(a, b int) { lines[a], lines[b] = lines[b], lines[a] })
+		if len(lines) > *max {
+			lines = lines[:*max]
+		}
+		vs := []dataVec{}
+		for _, b := range lines {
+			var v dataVec
+			if err := json.Unmarshal(b, &v); err != nil {
+				die("%s: %v", files[i+1], err)
+			}
+			vs = append(vs, v)
+		}
+		obs := make([]dataObs, len(vs))
+		var wg sync.WaitGroup
+		start := make(chan struct{})
+		for k := 0; k < *g; k++ {
+			wg.Add(1)
+			go func(k int) {
+				defer wg.Done()
+				<-start
+				for x := k; x < len(vs); x += *g {
+					obs[x] = observe(ms, vs[x].D)
+				}
+			}(k)
+		}
+		close(start)
+		wg.Wait()
+		for x, v := range vs {
+			n++
+			for _, m := range judgeData(sh, v, obs[x]) {
+				bad++
+				w.put(m)
+			}
+		}
+	}
+	w.close()
+	fmt.Printf("{\"evaluations\":%d,\"mismatches\":%d}\n", n, bad)
 }
 
 type randCase struct {
